@@ -19,6 +19,10 @@ Property text → theorems (model: PyatvModel/C20/Model.lean, constants: Gen/C20
 "so setting a level and reading it back returns that level"
    set_then_read_exact (exact arithmetic; for binary64 the harness checks read-back to a
    stated tolerance — equality is not claimed for floats).
+   stream_start_keeps_user_level, stream_start_ignores_receiver_level_once_set,
+   stream_start_adopts_iff: a stream start (RaopStream.stream_file) keeps a user-set level
+   and sends it to the receiver; other_device_inert: MRP updates for other output devices
+   change nothing.
 "and stepping the volume up or down never leaves the range"
    step_closed, and the `up`/`down` cases of raop_history_safe / mrp_history_safe.
 
@@ -378,8 +382,43 @@ theorem raop_step_safe (h : RoundingLaws rnd) {s : Raop} (hs : RaopInv s) (op : 
       have he : Raop.step rnd s (.report x) = (⟨some d⟩, []) := by simp only [Raop.step, hp]
       rw [he]
       refine ⟨?_, ?_⟩
-      · intro d' hd'; cases hd'; exact (pctToDbfsF_good h hp).2
+      · intro d' hd'; cases hd'; exact goodDbfs_ctxOk (pctToDbfsF_good h hp).2
       · intro ev hev; cases hev
+  | reportOther x =>
+    have he : Raop.step rnd s (.reportOther x) = (s, []) := rfl
+    rw [he]
+    exact ⟨hs, fun ev hev => by cases hev⟩
+  | streamStart init =>
+    obtain ⟨v, hv, hvr⟩ := raop_volume_good h hs
+    have helse : (match Raop.volume rnd s with
+        | .error e => (s, [Ev.raised e])
+        | .ok v => Raop.setVolume rnd s v) = Raop.setVolume rnd s v := by rw [hv]
+    cases hc : s.ctx with
+    | some d =>
+      have he : Raop.step rnd s (.streamStart init) = Raop.setVolume rnd s v := by
+        simp only [Raop.step, hc]; exact helse
+      rw [he]
+      exact raop_after_set h s hvr
+    | none =>
+      cases init with
+      | none =>
+        have he : Raop.step rnd s (.streamStart none) = Raop.setVolume rnd s v := by
+          simp only [Raop.step, hc]; exact helse
+        rw [he]
+        exact raop_after_set h s hvr
+      | some iv =>
+        by_cases hiv : FVal.le iv (.fin dbfsMax) = true
+        · have he : Raop.step rnd s (.streamStart (some iv)) = (⟨some iv⟩, []) := by
+            simp only [Raop.step, hc, hiv, if_true]
+          rw [he]
+          refine ⟨?_, fun ev hev => by cases hev⟩
+          intro d' hd'; cases hd'
+          rw [dbfsMax_eq] at hiv
+          exact hiv
+        · have he : Raop.step rnd s (.streamStart (some iv)) = (s, [.raised .protocol]) := by
+            simp only [Raop.step, hc, hiv]; rfl
+          rw [he]
+          exact ⟨hs, single _ rfl⟩
 
 /-- **Every history** of `set x` (x any float: NaN, ±inf, any finite number), `volume_up`,
     `volume_down`, `volume` reads and volume reports from other protocols (again any float),
@@ -439,6 +478,55 @@ theorem set_then_read_exact (s : Raop) {p : Rat} (h0 : 0 ≤ p) (h1 : p ≤ 100)
 
 example : (Raop.run id Raop.init [.set (.fin (100 / 3)), .read]).getLast? = some [.ret (.fin (100 / 3))] :=
   (set_then_read_exact _ (by norm_num) (by norm_num)).1
+
+/-- once a level is stored (any successful set / step / accepted report), a stream start
+    ignores whatever `initialVolume` the receiver advertises -/
+theorem stream_start_ignores_receiver_level_once_set (s : Raop) (hs : s.ctx ≠ none) (init : Option FVal) :
+    Raop.step rnd s (.streamStart init) = Raop.step rnd s (.streamStart none) := by
+  cases hc : s.ctx with
+  | none => exact absurd hc hs
+  | some d => simp only [Raop.step, hc]
+
+/-- a user-set level survives a stream start (exact arithmetic): whatever the receiver
+    advertises, stream start hands exactly the level set — boundaries 0 and 100 included —
+    to the receiver and `audio.volume` still returns it afterwards -/
+theorem stream_start_keeps_user_level (s : Raop) (init : Option FVal) {p : Rat} (h0 : 0 ≤ p) (h1 : p ≤ 100) :
+    ∃ d, pctToDbfs id p = .ok d ∧
+      Raop.run id s [.set (.fin p), .streamStart init, .read] =
+        [[.recv (.fin p), .wire (.fin d), .disp (.fin p)],
+         [.recv (.fin p), .wire (.fin d), .disp (.fin p)],
+         [.ret (.fin p)]] := by
+  have hx : InPct (.fin p) := ⟨p, rfl, h0, h1⟩
+  have hf : facadeSet (.fin p) = .ok (.fin p) := (facade_set_forwards_iff _ _).mpr ⟨rfl, hx⟩
+  have hfr : facadeRead (.fin p) = .ok (.fin p) := (facade_read_returns_iff _ _).mpr ⟨rfl, hx⟩
+  obtain ⟨d, hd⟩ := pctToDbfs_ok roundingLaws_id h0 h1
+  have hrt := roundtrip_pct h0 h1
+  rw [hd] at hrt
+  have hrt' : dbfsToPct id d = .ok p := hrt
+  have hdF : pctToDbfsF id (.fin p) = .ok (.fin d) := by rw [pctToDbfsF_fin, hd]; rfl
+  have hpF : dbfsToPctF id (.fin d) = .ok (.fin p) := by rw [dbfsToPctF_fin, hrt']; rfl
+  refine ⟨d, hd, ?_⟩
+  cases init <;> simp [Raop.run, Raop.step, hf, Raop.setVolume, hdF, Raop.volume, hpF, hfr]
+
+example : ∃ d, pctToDbfs id 100 = .ok d ∧
+    Raop.run id Raop.init [.set (.fin 100), .streamStart (some (.fin (-15))), .read] =
+      [[.recv (.fin 100), .wire (.fin d), .disp (.fin 100)], [.recv (.fin 100), .wire (.fin d), .disp (.fin 100)],
+       [.ret (.fin 100)]] := stream_start_keeps_user_level _ _ (by norm_num) (le_refl _)
+
+/-- without a stored level the receiver's advertised level is adopted iff it is at most
+    0 dBFS; anything else (positive, NaN, +inf) raises ProtocolError and stores nothing -/
+theorem stream_start_adopts_iff (iv : FVal) :
+    (FVal.le iv (.fin 0) = true → Raop.step rnd Raop.init (.streamStart (some iv)) = (⟨some iv⟩, [])) ∧
+    (FVal.le iv (.fin 0) = false → Raop.step rnd Raop.init (.streamStart (some iv)) = (Raop.init, [.raised .protocol])) := by
+  constructor
+  · intro hiv
+    simp only [Raop.step, Raop.init, dbfsMax_eq, hiv, if_true]
+  · intro hiv
+    simp only [Raop.step, Raop.init, dbfsMax_eq, hiv]
+    rfl
+
+example : (Raop.run id Raop.init [.streamStart (some (.fin (-15))), .read, .streamStart (some (.fin 5))]) =
+    [[], [.ret (.fin 50)], [.recv (.fin 50), .wire (.fin (-15)), .disp (.fin 50)]] := by decide +kernel
 
 /-! ## whole histories: facade over MrpAudio (absolute volume control) -/
 
@@ -515,6 +603,14 @@ theorem mrp_step_safe (h : RoundingLaws rnd) (s : Mrp) (op : Op) :
     intro ev hev
     simp only [Mrp.step] at hev
     cases hev
+  | reportOther x =>
+    intro ev hev
+    simp only [Mrp.step] at hev
+    cases hev
+  | streamStart x =>
+    intro ev hev
+    simp only [Mrp.step] at hev
+    cases hev
 
 /-- **Every history** over MrpAudio, from any initial device level, with device reports of
     any float (NaN, ±inf, out of range): every level received by `set_volume` is a finite
@@ -530,6 +626,38 @@ theorem mrp_history_safe (h : RoundingLaws rnd) (s : Mrp) (ops : List Op) :
     rcases hevs with rfl | hevs
     · exact mrp_step_safe h s op
     · exact ih _ evs hevs
+
+/-- a volume update addressed to another output device -/
+def isOther : Op → Bool
+  | .reportOther _ => true
+  | _ => false
+
+/-- **Updates for other output devices are inert**: such an update changes neither our
+    stored level nor anything observable, so deleting all of them from a history leaves
+    the outcome of every remaining operation exactly as it was.  In particular they can
+    never re-validate an out-of-range level reported for our device. -/
+theorem other_device_inert (s : Mrp) (ops : List Op) :
+    Mrp.run rnd s (ops.filter (fun o => !isOther o)) =
+      ((Mrp.run rnd s ops).zip ops).filterMap (fun p => if isOther p.2 then none else some p.1) := by
+  induction ops generalizing s with
+  | nil => rfl
+  | cons op ops ih =>
+    by_cases ho : isOther op = true
+    · have hstep : Mrp.step rnd s op = (s, []) := by
+        cases op <;> first | rfl | (simp [isOther] at ho)
+      have hf : (op :: ops).filter (fun o => !isOther o) = ops.filter (fun o => !isOther o) := by
+        rw [List.filter_cons]; simp [ho]
+      rw [hf, ih s]
+      simp only [Mrp.run, hstep, List.zip_cons_cons, List.filterMap_cons, ho, if_true]
+    · have ho' : isOther op = false := by simpa using ho
+      have hf : (op :: ops).filter (fun o => !isOther o) = op :: ops.filter (fun o => !isOther o) := by
+        rw [List.filter_cons]; simp [ho']
+      rw [hf]
+      simp only [Mrp.run, List.zip_cons_cons, List.filterMap_cons, ho', Bool.false_eq_true, if_false]
+      rw [ih]
+
+example : Mrp.run id ⟨.fin 50⟩ [.report (.fin 150), .reportOther (.fin 30), .down, .report (.fin (-50)), .reportOther (.fin 30), .up] =
+    [[], [], [.raised .protocol], [], [], [.raised .protocol]] := by decide +kernel
 
 example : Mrp.run id ⟨.fin 98⟩ [.up, .report (.fin (-50)), .up, .read, .report .nan, .down] =
     [[.recv (.fin 100), .wire (.fin 1)], [], [.raised .protocol], [.raised .protocol], [], [.raised .protocol]] := by
